@@ -486,6 +486,11 @@ def generate(rng, tier):
             chars = extra + csi + [50, SEMI, 51, RR]
             yield ("parse", True, extra, csi, [50], [51], chars, S("xR"))
             yield ("parse", False, extra, csi, [50], [51], [OSERR] + chars[:-1] + [OSERR, chars[-1]], [OSERR] + rep)
+    # very many failed reads: 1500 in a single query, and a long session of queries with a few each (a retry
+    # budget that is not per query shows only there)
+    many = [OSERR] * 1500
+    yield ("parse", True, S("ab"), [ESC, LB], [50], [51], many + S("ab") + [ESC, LB, 50] + [OSERR] * 40 + [SEMI, 51, RR], S("z"))
+    yield ("hist", [["set", 0, None]] + [["pos", True, [OSERR] * 9 + [ESC, LB, 49 + (i % 5), SEMI, 50, RR]] for i in range(130)])
     n = 8000 if tier == "thorough" else 700
     for _ in range(n):
         yield gen_parse(rng)
